@@ -400,3 +400,44 @@ mod tests {
         assert_eq!(user.builder_fee_factor(), 0);
     }
 }
+
+/// Verification hooks (add-only, compiled only with `--cfg gmsol_verif`).
+#[cfg(gmsol_verif)]
+pub mod verif {
+    use super::*;
+
+    /// [`UserHeader::init`].
+    pub fn init(user: &mut UserHeader, store: &Pubkey, owner: &Pubkey, bump: u8) -> Result<()> {
+        user.init(store, owner, bump)
+    }
+
+    /// Read `gt.total_minted`.
+    pub fn gt_total_minted(user: &UserHeader) -> u64 {
+        user.gt.total_minted
+    }
+
+    /// Read `gt.last_minted_at`.
+    pub fn gt_last_minted_at(user: &UserHeader) -> i64 {
+        user.gt.last_minted_at
+    }
+
+    /// Read the owner.
+    pub fn owner(user: &UserHeader) -> Pubkey {
+        user.owner
+    }
+
+    /// [`UserHeader::set_builder_fee_factor`].
+    pub fn set_builder_fee_factor(user: &mut UserHeader, factor: u128) -> u128 {
+        user.set_builder_fee_factor(factor)
+    }
+
+    /// [`Referral::set_code`].
+    pub fn referral_set_code(user: &mut UserHeader, code: &Pubkey) -> Result<()> {
+        user.referral.set_code(code)
+    }
+
+    /// [`Referral::set_referrer`].
+    pub fn referral_set_referrer(user: &mut UserHeader, referrer_user: &mut UserHeader) -> Result<()> {
+        user.referral.set_referrer(referrer_user)
+    }
+}
